@@ -13,6 +13,7 @@ import (
 	"net/http"
 	"strings"
 	"sync"
+	"sync/atomic"
 	"time"
 
 	"github.com/IrineSistiana/mosproxy/internal/dnsmsg"
@@ -28,6 +29,12 @@ func init() {
 			"one evaluation = one hostile input; distinct non-trivial = distinct inputs by content hash (decoder) and distinct (listener or upstream, mutation kind) cells whose follow-up probe was answered",
 		Run: func(c *Ctx) {
 			c01Decoder(c)
+			if c.ViolationCount() > 0 {
+				// the decoder itself crashes or hangs: the end-to-end monitors would only repeat that,
+				// slowly (every listener thread that meets such an input is gone)
+				c.Ev.Set("e2e_parts_skipped", "decoder monitor already found a violation")
+				return
+			}
 			var wg sync.WaitGroup
 			wg.Add(2)
 			go func() { defer wg.Done(); c01Listeners(c) }()
@@ -111,13 +118,37 @@ func c01Hostile(r *gen.R, seed []byte) ([]byte, string) {
 	}
 }
 
+// mosproxyDecodes asks the proxy's own decoder (in this process). A decoder that panics or hangs
+// here is reported by the decoder monitor; it must not take the harness down: panics are recovered,
+// and after one call that does not return within 3 s the decoder is no longer consulted.
+var decoderBroken atomic.Bool
+
 func mosproxyDecodes(b []byte) bool {
-	m, err := dnsmsg.UnpackMsg(b)
-	if err != nil {
+	if decoderBroken.Load() {
 		return false
 	}
-	dnsmsg.ReleaseMsg(m)
-	return true
+	res := make(chan bool, 1)
+	go func() {
+		defer func() {
+			if recover() != nil {
+				res <- false
+			}
+		}()
+		m, err := dnsmsg.UnpackMsg(b)
+		if err != nil {
+			res <- false
+			return
+		}
+		dnsmsg.ReleaseMsg(m)
+		res <- true
+	}()
+	select {
+	case ok := <-res:
+		return ok
+	case <-time.After(3 * time.Second):
+		decoderBroken.Store(true)
+		return false
+	}
 }
 
 func c01Probe(b *Bed, listener, name string) error {
@@ -280,6 +311,9 @@ func c01SendHostile(b *Bed, r *gen.R, listener string, h []byte, kind string) st
 		want := 400
 		if mosproxyDecodes(h) {
 			want = 200
+		}
+		if decoderBroken.Load() {
+			return "" // no oracle for "decodable" any more
 		}
 		switch r.Intn(5) {
 		case 0: // GET with raw (possibly invalid) base64
